@@ -47,12 +47,18 @@ func TestVerif_C17_MirroredPairsInAgents(t *testing.T) {
 				evs = append(evs, ev{side, 1, i}, ev{side, 2, i})
 			}
 		}
+		// 0..2 rounds of checks (tick both, deliver everything) somewhere in between: a check that arrives before
+		// its sender's candidate was signalled makes a peer-reflexive remote, which the signalled one supersedes
+		for k := rapid.IntRange(0, 2).Draw(rt, "checkRounds"); k > 0; k-- {
+			evs = append(evs, ev{0, 3, 0})
+		}
 		evs = rapid.Permutation(evs).Draw(rt, "order")
 		added := [2]map[int]*simSock{{}, {}}
 		started := [2]bool{}
 		var late []ev
 		var trace []string
 		pairsBeforeStart := false
+		prflxSeen := false
 		run := func(e ev) bool {
 			ag := d.ag[e.side]
 			switch e.kind {
@@ -75,6 +81,22 @@ func TestVerif_C17_MirroredPairsInAgents(t *testing.T) {
 				}
 				added[e.side][e.idx] = s
 				trace = append(trace, fmt.Sprintf("local(%c%d)", 'A'+e.side, e.idx))
+			case 3:
+				for side := 0; side < 2; side++ {
+					if started[side] {
+						d.ag[side].tick()
+					}
+				}
+				d.deliverAll()
+				for side := 0; side < 2; side++ {
+					rc, _ := d.ag[side].a.GetRemoteCandidates()
+					for _, r := range rc {
+						if r.Type() == CandidateTypePeerReflexive {
+							prflxSeen = true
+						}
+					}
+				}
+				trace = append(trace, "round")
 			case 2:
 				s := added[e.side][e.idx]
 				if s == nil {
@@ -96,7 +118,7 @@ func TestVerif_C17_MirroredPairsInAgents(t *testing.T) {
 		for _, e := range late {
 			run(e)
 		}
-		st.Record(vfHash(c.String(), strings.Join(trace, ",")), pairsBeforeStart)
+		st.Record(vfHash(c.String(), strings.Join(trace, ",")), pairsBeforeStart || prflxSeen, fmt.Sprintf("peer-reflexive-then-signalled:%v", prflxSeen))
 		if st.WantSample() && pairsBeforeStart {
 			st.Sample(func() string { return c.String() + " :: " + strings.Join(trace, " ") })
 		}
